@@ -245,6 +245,42 @@ def apply_op(cl, nodes, op):
         raise ValueError(k)
 
 
+def _closes_loop(nodes, op):
+    """would this assignment, taken at face value on the links as they are now, make a node its own ancestor?"""
+    def up(x):
+        seen, out = set(), []
+        while x is not None and id(x) not in seen:
+            seen.add(id(x)); out.append(x); x = x.parent
+        return out
+
+    def node(a):
+        return nodes[a[1]] if (isinstance(a, list) and a and a[0] == "N") else None
+    k = op[0]
+    pairs = []          # (child, parent) links the op asks for
+    if k == "SetParent":
+        pairs = [(nodes[op[1]], node(op[2]))]
+    elif k == "SetChildren":
+        pairs = [(node(a), nodes[op[1]]) for a in op[3]]
+    elif k in ("Append", "RShift"):
+        pairs = [(nodes[op[2]], nodes[op[1]])]
+    elif k == "LShift":
+        pairs = [(nodes[op[1]], nodes[op[2]])]
+    elif k == "Extend":
+        pairs = [(nodes[c], nodes[op[1]]) for c in op[2]]
+    elif k == "Construct":
+        pa = node(op[2])
+        if pa is not None and op[3] != "absent":
+            chain = up(pa)
+            return any(node(a) is not None and any(node(a) is y for y in chain) for a in op[4])
+        return False
+    for c, p in pairs:
+        if c is None or p is None:
+            continue
+        if any(c is y for y in up(p)):
+            return True
+    return False
+
+
 def run_history(case, with_final=True):
     """Run the history on fresh FNode/FBase objects; used in-process and in the no-assertion child."""
     cl = _classes()
@@ -260,6 +296,12 @@ def run_history(case, with_final=True):
     trace = []
     for op in case["ops"]:
         code = 0
+        if not case.get("assert", True) and _closes_loop(nodes, op):
+            # with the checks off nothing would refuse this assignment and the links would form a cycle: outside
+            # the modelled domain (the model answers Unmodelled for it and the case is skipped) -- not executed,
+            # because every later read would walk the cycle forever
+            trace.append([_links(nodes), 14])
+            continue
         try:
             apply_op(cl, nodes, op)
         except HookFault:
